@@ -176,6 +176,14 @@ func (c *Ctx) term(v ssa.Value, d int) string {
 					return c.term(ia.X, d+1) + "[" + c.term(ia.Index, d+1) + "]"
 				}
 			}
+			if al, ok := x.X.(*ssa.Alloc); ok {
+				if sp := spilledParam(al); sp != nil {
+					// the whole of a by-value parameter that happens to be address-taken reads as the parameter
+					if _, _, lt := c.lookThrough(sp); !lt {
+						return "$" + c.paramName(sp)
+					}
+				}
+			}
 			return c.addrPath(x.X, d+1)
 		case token.NOT:
 			return "!" + c.term(x.X, d+1)
